@@ -387,6 +387,10 @@ def small_programs():
             # object-keeping ports with a real-time message that the sender changes right after send()
             progs.append({'port': port, 'senders': [2], 'receivers': [{'mode': 'poll', 'quota': two}], 'sysex': 'rt',
                           'mutate': True})
+        if port not in ('pqueue',):
+            # two receivers, each ready to take everything (a drain loop and a poller competing for the queued rest)
+            progs.append({'port': port, 'senders': [2], 'receivers': [{'mode': 'iter_pending', 'quota': two},
+                                                                     {'mode': 'poll', 'quota': two}]})
         # two receivers going for a single message / for the last message
         progs.append({'port': port, 'senders': [1], 'receivers': [{'mode': 'poll', 'quota': 1},
                                                                  {'mode': 'poll', 'quota': 1}]})
